@@ -59,6 +59,18 @@ pub proof fn lemma_sig_concat_push(s: Seq<&SyntaxNode>, n: &SyntaxNode)
     reveal_with_fuel(sig_concat, 2);
     assert(s.push(n).drop_last() =~= s);
 }
+pub proof fn lemma_sig_concat_append(a: Seq<&SyntaxNode>, b: Seq<&SyntaxNode>)
+    ensures sig_concat(a + b) =~= sig_concat(a) + sig_concat(b),
+    decreases b.len(),
+{
+    reveal_with_fuel(sig_concat, 2);
+    if b.len() == 0 { assert(a + b =~= a); }
+    else {
+        assert((a + b).drop_last() =~= a + b.drop_last());
+        assert((a + b).last() == b.last());
+        lemma_sig_concat_append(a, b.drop_last());
+    }
+}
 pub proof fn lemma_sig_concat_step(s: Seq<&SyntaxNode>, k: int)
     requires 0 <= k < s.len(),
     ensures sig_concat(s.subrange(0, k + 1)) == sig_concat(s.subrange(0, k)) + sig_leaves(s[k]),
